@@ -206,9 +206,11 @@ def run_case(seed, i, tier):
         if a is not None and b is not None and a > b:
             a, b = b, a
         flt, seek = select(ents, None if a is None else a // 1000, None if b is None else b // 1000)
-        if flt != seek:
-            # receive times of this file are not monotone around these bounds: "filter" and "seek + stop at the first
-            # entry past B" differ and the statement does not say which; drop the window for this case
+        monotone = all(ents[k]["rt"] <= ents[k + 1]["rt"] for k in range(len(ents) - 1))
+        if flt != seek or not monotone:
+            # receive times of this file are not monotone: "filter", "seek linearly + stop at the first entry past B" and
+            # what libsystemd really does (bisection over the entry array, after comparing the bound with the header's
+            # head / tail receive times) can all differ, and the statement names none of them; no window for this case
             a = b = None
             form = "none(non-monotone)"
         else:
@@ -293,7 +295,7 @@ RULE = ("one case = a generated journal (sim/journalgen.py: 0..150 entries; rece
         "window with bounds exactly on / 1 us off / between receive times; compared with `journalctl --file -o export`; "
         "non-trivial = every run; distinct = (journal, container, rendering, window, zone)")
 ASSUMPTIONS = ["journalctl (systemd 252) is the reference reader for entry order, receive times and field contents",
-               "where a file's receive times are not monotone around the drawn bounds the window is dropped (filter and seek+stop semantics differ and the statement names neither)",
+               "a journal whose receive times are not monotone (wall clock set back) is printed without a window: filter, linear seek+stop and libsystemd's bisection with header shortcuts differ there and the statement names none",
                "generated journals use the regular (non-compact, Jenkins-hash, uncompressed) layout; a generated file is used only after journalctl reads back exactly the generator's entries"]
 
 
